@@ -4,6 +4,7 @@ CONSTANTS Normal = {"n1", "n2", "n3", "n4", "n5", "n6", "n7", "n8"}
           Long = {"nL"}
           Empty = {"nE"}
           Keys = {1, 2}
+          BadKeys = {7}
           EncodeOn = TRUE
           D = 100000
           E = 40
